@@ -5,43 +5,92 @@ from harness import cfg, common
 from harness.common import Result
 
 SCALARS = {'NumCPUs': [1, 2, 8, 16, 0], 'CookieAuthentication': [True, False], 'Nickname': ['alice', 'bob', 'carol x', 'dave'],
-           'ContactInfo': ['me <a@b>', 'x=y', 'q"r'], 'MaxCircuitDirtiness': [600, 10, 99]}
+           'ContactInfo': ['me <a@b>', 'x=y', 'q"r'], 'MaxCircuitDirtiness': [600, 10, 99],
+           'AvoidDiskWrites': [True, False], 'ClientUseIPv6': [-1, 0, 1], 'BandwidthRate': [1024, 65536, 1073741824],
+           'PathBiasNoticeRate': [0.5, 0.25, 0.7, 1.0], 'DataDirectory': ['/var/lib/tor', '/tmp/t or'], 'KeepalivePeriod': [300, 60],
+           'OwningControllerFD': [-1, 7]}
 LIST_ITEMS = ['notice stdout', 'debug file /x y', '9050', '9050 IsolateDestAddr', 'unix:/s', 'reject *:25', 'accept *:*', 'a', '']
+COMMA_ITEMS = ['21', '22', '80', 'relayA', '{us}', '$ABCD', '10.0.0.0/8']
+# the pool the C11 tables are drawn from
+POOL = [('SocksPort', 'PortLines'), ('DNSPort', 'PortLines'), ('Log', 'LineList'), ('ExitPolicy', 'LineList'),
+        ('LongLivedPorts', 'CommaList'), ('ExcludeNodes', 'RouterList'), ('CookieAuthentication', 'Boolean'), ('AvoidDiskWrites', 'Boolean'),
+        ('ClientUseIPv6', 'Boolean+Auto'), ('NumCPUs', 'Integer'), ('OwningControllerFD', 'SignedInteger'), ('BandwidthRate', 'DataSize'),
+        ('MaxCircuitDirtiness', 'TimeInterval'), ('KeepalivePeriod', 'TimeInterval'), ('PathBiasNoticeRate', 'Float'),
+        ('Nickname', 'String'), ('ContactInfo', 'String'), ('DataDirectory', 'Filename')]
 
 
-def gen_store(rng):
+def items_for(tab, n):
+    return COMMA_ITEMS if n in tab.commas else LIST_ITEMS[:8]
+
+
+def tor_values(tab, n, items):
+    """how Tor holds a list: line lists one value per line, comma lists one comma-separated value"""
+    if n in tab.commas:
+        return [','.join(items)] if items else []
+    return list(items)
+
+
+def gen_table(rng):
+    k = rng.randint(4, len(POOL))
+    opts = rng.sample(POOL, k)
+    if not any(t in cfg.LINE_TYPES for _, t in opts):
+        opts.append(('Log', 'LineList')) if ('Log', 'LineList') not in opts else None
+    return [list(o) for o in opts]
+
+
+def gen_store(rng, options=None):
+    tab = cfg.Table({'options': options})
     store = {}
-    for n in cfg.LISTS:
+    for n in tab.lists:
         k = rng.choice([0, 0, 1, 1, 2, 3])
         if k:
-            store[n] = [rng.choice(LIST_ITEMS[:8]) for _ in range(k)]
-    for n, vals in SCALARS.items():
+            store[n] = tor_values(tab, n, [rng.choice(items_for(tab, n)) for _ in range(k)])
+    for n in tab.names:
+        if n in tab.lists:
+            continue
+        vals = SCALARS[n]
         if rng.random() < 0.6:
-            store[n] = [cfg.wire(rng.choice(vals))]
-            if n in ('Nickname', 'ContactInfo') and store[n] == ['']:
-                del store[n]
+            v = rng.choice(vals)
+            store[n] = [cfg.wire_typed(tab.types[n], v)]
     defaults = None
     if rng.random() < 0.7:
         defaults = {}
-        if rng.random() < 0.7:
-            defaults['SocksPort'] = ['9050']
-        if rng.random() < 0.5:
-            defaults['ExitPolicy'] = ['reject *:25', 'accept *:*']
-        if rng.random() < 0.4:
-            defaults['Nickname'] = ['Unnamed']
+        for n, d in (('SocksPort', ['9050']), ('ExitPolicy', ['reject *:25', 'accept *:*']), ('Nickname', ['Unnamed']),
+                     ('LongLivedPorts', ['21,22,706']), ('DNSPort', ['53']), ('ContactInfo', ['nobody'])):
+            if n in tab.names and rng.random() < 0.6:
+                defaults[n] = d
+    for n in tab.names:
+        # the __FooPort fallback only matters for the view built at attach time; such options are left alone afterwards
+        if tab.types[n] == 'PortLines' and n not in store and rng.random() < 0.5:
+            store['__' + n] = ['9%03d' % rng.randrange(1000)]
     return store, defaults
 
 
-def gen_ops(rng, store, defaults, *, n_ops, conf_events, aliasing):
+def mixed_case(rng, n):
+    r = rng.random()
+    if r < 0.5:
+        return n
+    if r < 0.7:
+        return n.lower()
+    if r < 0.85:
+        return n.upper()
+    return ''.join(c.upper() if rng.random() < 0.5 else c.lower() for c in n)
+
+
+def gen_ops(rng, store, defaults, *, n_ops, conf_events, aliasing, options=None, case_mix=False):
     """adaptive: a live implementation tells which list operations are possible"""
-    case = {'store': store, 'defaults': defaults, 'ops': []}
+    case = {'options': options, 'store': store, 'defaults': defaults, 'ops': []}
+    tab = cfg.Table(case)
     im = cfg.Impl(case)
     ops = []
     pending_assigned = set()
     last_assigned = {}
     inflight = []          # snapshots (sets of names) of outstanding saves
     sent_content = []      # per outstanding save: {list option: content sent}
-    tor = copy.deepcopy(store)
+    sent_names = []        # per outstanding save: names it carries
+    frozen = {n for n in tab.names if ('__' + n) in store}
+    scalars = [n for n in tab.names if n not in tab.lists]
+    lists = [n for n in tab.lists if n not in frozen] or tab.lists
 
     def last_sent(n):
         for snap in reversed(sent_content):
@@ -52,80 +101,100 @@ def gen_ops(rng, store, defaults, *, n_ops, conf_events, aliasing):
     def do(op):
         ops.append(op)
         im.do(op)
+
+    def spell(n):
+        return mixed_case(rng, n) if case_mix else n
     for _ in range(n_ops):
         r = rng.random()
-        if r < 0.22:
-            n = rng.choice(list(SCALARS))
+        if conf_events and rng.random() < 0.3:
+            r = 0.99
+        if r < 0.22 and scalars:
+            n = rng.choice(scalars)
             v = rng.choice(SCALARS[n])
-            if inflight and cfg.wire(v) == last_assigned.get(n):
+            if inflight and cfg.wire_typed(tab.types[n], v) == last_assigned.get(n):
                 continue        # re-assigning the value that is in flight: whether it is re-sent is a don't-care
-            last_assigned[n] = cfg.wire(v)
-            do(['assign', n, v])
+            last_assigned[n] = cfg.wire_typed(tab.types[n], v)
+            do(['assign', spell(n), v])
             pending_assigned.add(n)
         elif r < 0.30:
-            n = rng.choice(cfg.LISTS)
-            v = [rng.choice(LIST_ITEMS[:8]) for _ in range(rng.randint(0 if rng.random() < 0.3 else 1, 3))]
+            n = rng.choice(lists)
+            v = [rng.choice(items_for(tab, n)) for _ in range(rng.randint(0 if rng.random() < 0.3 else 1, 3))]
             if inflight and (v == last_assigned.get(n) or v == [str(x) for x in getattr(im.cfg, n)]):
                 continue
             last_assigned[n] = list(v)
-            do(['assign', n, v])
+            do(['assign', spell(n), v])
             pending_assigned.add(n)
         elif r < 0.58:
-            n = rng.choice(cfg.LISTS)
+            n = rng.choice(lists)
             if n in pending_assigned and not aliasing:
                 continue
-            cur = list(getattr(im.cfg, n))
+            cur = getattr(im.cfg, n)
+            if not isinstance(cur, list) or any(not isinstance(x, str) for x in cur):
+                continue        # the view lost its shape: nothing sensible to edit (the reads already show it)
+            cur = list(cur)
+            pool = items_for(tab, n)
             kinds = ['append', 'extend', 'insert']
             if len(cur) > 1 or (cur and rng.random() < 0.25):
                 kinds += ['remove', 'pop', 'setitem']
             elif cur:
                 kinds += ['setitem']
             k = rng.choice(kinds)
+            sn = spell(n)
             if k == 'append':
-                op = ['lop', n, 'append', rng.choice(LIST_ITEMS[:8])]
+                op = ['lop', sn, 'append', rng.choice(pool)]
             elif k == 'extend':
-                op = ['lop', n, 'extend', [rng.choice(LIST_ITEMS[:8]) for _ in range(rng.randint(0, 2))]]
+                op = ['lop', sn, 'extend', [rng.choice(pool) for _ in range(rng.randint(0, 2))]]
             elif k == 'insert':
-                op = ['lop', n, 'insert', rng.randint(0, len(cur) + 1), rng.choice(LIST_ITEMS[:8])]
+                op = ['lop', sn, 'insert', rng.randint(0, len(cur) + 1), rng.choice(pool)]
             elif k == 'remove':
-                op = ['lop', n, 'remove', rng.choice(cur)]
+                op = ['lop', sn, 'remove', rng.choice(cur)]
             elif k == 'pop':
-                op = ['lop', n, 'pop']
+                op = ['lop', sn, 'pop']
             else:
-                op = ['lop', n, 'setitem', rng.randrange(len(cur)), rng.choice(LIST_ITEMS[:8])]
+                op = ['lop', sn, 'setitem', rng.randrange(len(cur)), rng.choice(pool)]
             if inflight and py_list_op([str(x) for x in cur], op) == last_sent(n):
                 continue        # back to what the newest outstanding SETCONF carries: re-sending it or not is a don't-care
             do(op)
         elif r < 0.78:
             was = im.cfg.needs_save()
+            names = list(im.cfg.unsaved.keys())
             do(['save'])
             if was:
                 inflight.append(set(pending_assigned))
-                sent_content.append({n: [str(x) for x in getattr(im.cfg, n)] for n in cfg.LISTS})
+                sent_names.append(set(names))
+                sent_content.append({n: [str(x) for x in getattr(im.cfg, n)] for n in tab.lists if isinstance(getattr(im.cfg, n), list)})
         elif r < 0.93:
             if inflight:
                 ok = rng.random() < 0.8
                 do(['ack', ok])
                 snap = inflight.pop(0)
                 sent_content.pop(0)
+                sent_names.pop(0)
                 if ok:
                     pending_assigned -= snap
-        elif conf_events and not inflight and not im.cfg.needs_save():
+        elif conf_events:
+            # another controller changes options that have no local change pending or outstanding
+            busy = set(im.cfg.unsaved.keys()) | set().union(*sent_names) if sent_names else set(im.cfg.unsaved.keys())
+            free = [n for n in tab.names if n not in busy and n not in frozen]
+            if not free:
+                continue
             changes = []
-            for n in rng.sample(cfg.NAMES, rng.randint(1, 3)):
-                if n in cfg.LISTS:
-                    vals = [rng.choice(LIST_ITEMS[:8]) for _ in range(rng.choice([0, 1, 1, 2, 3]))]
-                elif n in cfg.NUMERIC_DEFAULT:
-                    vals = [cfg.wire(rng.choice(SCALARS[n]))]
+            for n in rng.sample(free, min(len(free), rng.randint(1, 3))):
+                if n in tab.lists:
+                    vals = tor_values(tab, n, [rng.choice(items_for(tab, n)) for _ in range(rng.choice([0, 1, 1, 2, 3]))])
+                elif n in tab.numeric_default:
+                    vals = [cfg.wire_typed(tab.types[n], rng.choice(SCALARS[n]))]
                 else:
                     vals = [v for v in [cfg.wire(rng.choice(SCALARS[n]))] if v != ''] if rng.random() < 0.7 else []
-                changes.append([n, vals])
-                im.st.store[n] = list(vals)
+                changes.append([spell(n), vals])
             do(['conf', changes])
     while inflight:
         do(['ack', True])
         inflight.pop(0)
-    return {'store': store, 'defaults': defaults, 'ops': ops}
+    out = {'store': store, 'defaults': defaults, 'ops': ops}
+    if options is not None:
+        out['options'] = options
+    return out
 
 
 def py_list_op(lst, op):
@@ -146,39 +215,66 @@ def py_list_op(lst, op):
     return lst
 
 
-def spec_trace(case):
-    """C10/C11 as an abstract machine: what must be observable after each op (None = unconstrained)."""
+def split_commas(lines):
+    out = []
+    for v in lines:
+        out += [x.strip() for x in v.split(',')]
+    return out
+
+
+def view_of(tab, n, vals, defaults, store=None):
+    """C11: what the view must show for option `n` when Tor holds `vals` ([] = unset)"""
+    t = tab.types[n]
+    if t == 'LineList':
+        return ['l', list(vals) if vals else list(defaults.get(n, [])), 'ListWrapper']
+    if t == 'PortLines':
+        if vals:
+            return ['l', list(vals), 'ListWrapper']
+        if n in defaults:
+            return ['l', list(defaults[n]), 'ListWrapper']
+        under = (store or {}).get('__' + n, [])
+        return ['l', [under[-1]] if under else [], 'ListWrapper']
+    if t in cfg.COMMA_TYPES:
+        return ['l', split_commas(vals if vals else defaults.get(n, [])), 'ListWrapper']
+    if vals:
+        return ['s', cfg.canon_text(t, vals[-1])]
+    if n in tab.numeric_default:
+        return ['s', cfg.canon_text(t, tab.numeric_default[n])]
+    return ['s', defaults[n][0] if defaults.get(n) else 'DEFAULT']
+
+
+def spec_trace(case, quirks=(), affected=None):
+    """C10/C11 as an abstract machine: what must be observable after each op (None = unconstrained).
+    `quirks` replays the recorded known findings ('emptied': an emptied list sends nothing, 'comma': a comma list is
+    sent as one pair per item) so that a failing case can be told apart from a new violation; the options that hit
+    one are added to `affected`."""
+    affected = affected if affected is not None else set()
+    tab = cfg.Table(case)
     defaults = case.get('defaults') or {}
-    tor = {n: list(case['store'].get(n, [])) for n in cfg.NAMES}      # Tor's configuration
-    running = {}
-    for n in cfg.NAMES:
-        vals = tor[n]
-        if n in cfg.LISTS:
-            running[n] = list(vals) if vals else list(defaults.get(n, []))
-        else:
-            running[n] = vals[-1] if vals else (cfg.NUMERIC_DEFAULT.get(n) or (defaults.get(n, ['DEFAULT'])[0]))
-    pending = {}              # name -> intended value (first-touch order)
-    live = {n: (list(v) if isinstance(v, list) else v) for n, v in running.items()}   # what in-place edits act on
+    store0 = case['store']
+    live = {n: view_of(tab, n, store0.get(n, []), defaults, store0) for n in tab.names}    # the running view
+    pending = {}              # name -> intended value (first-touch order); lists alias the running list when edited in place
     inflight = []
-    changes = {n: 0 for n in cfg.NAMES}     # how many local changes each option has seen
-    out = [{'outs': [], 'needs': False}]
+    changes = {n: 0 for n in tab.names}     # how many local changes each option has seen
+    out = [{'outs': [], 'needs': False, 'reads': copy.deepcopy(live)}]
     for op in case['ops']:
         k = op[0]
         o = []
         if k == 'assign':
-            v = cfg.wire(op[2])
-            pending[op[1]] = list(v) if isinstance(v, list) else v
-            changes[op[1]] += 1
+            n = tab.real(op[1])
+            v = cfg.wire_typed(tab.types[n], op[2])
+            pending[n] = ['l', list(v), 'ListWrapper'] if isinstance(v, list) else ['s', cfg.canon_text(tab.types[n], v), v]
+            changes[n] += 1
         elif k == 'lop':
-            n = op[1]
+            n = tab.real(op[1])
             changes[n] += 1
             if n not in pending:
-                pending[n] = live[n]        # the live list itself becomes the pending value (aliased)
+                pending[n] = live[n]        # the running list itself becomes the pending value (aliased)
             try:
-                live[n][:] = py_list_op(live[n], op)
+                live[n][1][:] = py_list_op(live[n][1], op)
             except (ValueError, IndexError):
                 # the implementation allowed an operation its list contents should not allow
-                out.append({'outs': [['impossible-here']], 'needs': None})
+                out.append({'outs': [['impossible-here']], 'needs': None, 'reads': None})
                 break
         elif k == 'save':
             if not pending:
@@ -186,14 +282,23 @@ def spec_trace(case):
             else:
                 pairs = []
                 for n, v in pending.items():
-                    if isinstance(v, list):
-                        pairs += [[n, x] for x in v] if v else [[n, '']]      # an emptied list: a request to clear
+                    if v[0] == 'l':
+                        if not v[1] and 'emptied' in quirks:
+                            affected.add(n)
+                        elif n in tab.commas and len(v[1]) > 1 and 'comma' in quirks:
+                            affected.add(n)
+                            pairs += [[n, x] for x in v[1]]
+                        elif n in tab.commas:
+                            pairs.append([n, ','.join(v[1])])                      # a comma list is one value ('' clears)
+                        else:
+                            pairs += [[n, x] for x in v[1]] if v[1] else [[n, '']]   # an emptied list: a request to clear
                     else:
-                        pairs.append([n, v])
+                        pairs.append([n, v[2]])
                 o.append(['setconf', pairs])
                 inflight.append({n: changes[n] for n in pending})
                 for n, v in pending.items():
-                    live[n] = v
+                    live[n] = v[:2] + ['ListWrapper'] if v[0] == 'l' else v[:2]
+                    pending[n] = live[n] if v[0] == 'l' else v
         elif k == 'ack':
             if inflight:
                 snap = inflight.pop(0)
@@ -205,29 +310,27 @@ def spec_trace(case):
                 else:
                     o.append(['rejected'])
         elif k == 'conf':
-            for n, vals in op[1]:
-                if n in cfg.LISTS:
-                    live[n] = list(vals) if vals else list(defaults.get(n, []))
-                else:
-                    live[n] = vals[-1] if vals else (cfg.NUMERIC_DEFAULT.get(n) or (defaults.get(n, ['DEFAULT'])[0]))
-        out.append({'outs': o, 'needs': bool(pending)})
+            for key, vals in op[1]:
+                n = tab.real(key)
+                live[n] = view_of(tab, n, vals, defaults, store0)
+        out.append({'outs': o, 'needs': bool(pending), 'reads': copy.deepcopy({n: v[:3] if v[0] == 'l' else v[:2] for n, v in live.items()})})
     return out
 
 
 def split_setconfs(trace, keys):
     """a second SETCONF is only written once the first has been answered (one command in flight, C01), so the
     SETCONFs are compared as one ordered sequence and the remaining observations step by step"""
-    steps = [dict({k: t[k] for k in keys if k != 'outs'}, outs=[o for o in t['outs'] if o[0] != 'setconf']) for t in trace]
-    return {'steps': steps, 'setconfs': [o[1] for t in trace for o in t['outs'] if o[0] == 'setconf']}
-
-
-def project(trace):
-    return split_setconfs(trace, ('outs', 'needs'))
+    if 'outs' not in keys:
+        return {'steps': [{k: t[k] for k in keys} for t in trace]}
+    steps = [dict({k: t[k] for k in keys if k != 'outs'}, outs=None if t['outs'] is None else [o for o in t['outs'] if o[0] != 'setconf'])
+             for t in trace]
+    return {'steps': steps, 'setconfs': [o[1] for t in trace for o in (t['outs'] or []) if o[0] == 'setconf']}
 
 
 def quiescent_views(case, trace):
     """at points where nothing is pending or in flight and the last answer was an acknowledgement:
     the attribute reads must equal Tor's configuration, list options being tracked lists"""
+    tab = cfg.Table(case)
     defaults = case.get('defaults') or {}
     views = []
     inflight = 0
@@ -244,18 +347,17 @@ def quiescent_views(case, trace):
                 ok = True if op[0] == 'conf' else ok
         if inflight == 0 and not t['needs'] and ok and 'store' in t:
             exp, got = {}, {}
-            for n in cfg.NAMES:
-                vals = t['store'].get(n, [])
-                if n in cfg.LISTS:
-                    exp[n] = ['l', list(vals) if vals else list(defaults.get(n, [])), 'ListWrapper']
-                else:
-                    exp[n] = ['s', vals[-1] if vals else (cfg.NUMERIC_DEFAULT.get(n) or (defaults.get(n, ['DEFAULT'])[0]))]
+            for n in tab.names:
+                exp[n] = view_of(tab, n, t['store'].get(n, []), defaults, case['store'])
                 got[n] = t['reads'][n]
             views.append([i, got, exp])
     return views
 
 
-def make_run_cases(tagger, check_views):
+def make_run_cases(tagger, check_views, keys=('outs', 'needs')):
+    def project(trace):
+        return split_setconfs(trace, keys)
+
     def run_cases(cases, drv, tier):
         common.quiet_twisted()
         impls = [cfg.run_impl(c) for c in cases]
@@ -281,13 +383,36 @@ def make_run_cases(tagger, check_views):
             if in_h:
                 spec = project(spec_trace(c))
                 view = project(im)
+                view['steps'] = view['steps'][:len(spec['steps'])] if len(spec['steps']) < len(view['steps']) else view['steps']
                 if check_views:
                     qv = quiescent_views(c, im)
-                    view['views_ok'] = [[i, got] for i, got, exp in qv if got != exp]
+                    view['views_ok'] = [[i, n, got[n], exp[n]] for i, got, exp in qv for n in got if got[n] != exp[n]]
                     spec['views_ok'] = []
                 prop_ok = view == spec
             tags, nontriv = tagger(c, im)
             res.append(Result(c, {'trace': [{x: t[x] for x in ('outs', 'needs', 'reads')} for t in im], 'view': view}, model, spec,
                               corr_ok=corr_ok, prop_ok=prop_ok, in_h=in_h, nontrivial=nontriv, tags=tags))
         return res
+    run_cases.project = project
     return run_cases
+
+
+def classify_known(r, prop, project):
+    """a failing case is a known finding only if it is *exactly* explained by the recorded defects: the implementation
+    equals the statement with those defects replayed, and Tor's store differs from the view only on the options hit"""
+    if r.corr_ok is False or r.spec is None:
+        return None
+    affected = set()
+    adj = project(spec_trace(r.case, quirks=('emptied', 'comma'), affected=affected))
+    if not affected:
+        return None
+    view = dict(r.impl['view'])
+    if 'views_ok' in view:
+        view['views_ok'] = [v for v in view['views_ok'] if v[1] not in affected]
+        adj['views_ok'] = []
+    view['steps'] = view['steps'][:len(adj['steps'])]
+    if view != adj:
+        return None
+    emptied = set()
+    spec_trace(r.case, quirks=('emptied',), affected=emptied)
+    return '%s-emptied-list-not-cleared' % prop if emptied else '%s-comma-list-sent-as-repeated-keys' % prop
